@@ -314,8 +314,9 @@ Definition eq_model (f : afilter) (a b : list (bytes * ival)) : eq_obs :=
   let ma := mk_attrs f a in
   let mb := mk_attrs f b in
   let e := attrs_eqb ma mb in
+  let base := attrs_ieee_eqb ma mb in
   (* same series: both measurements go to a table with room; the second finds the first's entry iff the keys compare equal *)
-  mk_eq_obs ma mb e e (if e then HSame else HNa) (match tfind mb (record 10 ma 1 []) with Some _ => true | None => false end) true true.
+  mk_eq_obs ma mb base e (if base then HSame else HNa) (match tfind mb (record 10 ma 1 []) with Some _ => true | None => false end) true true.
 
 Definition print_hrel (h : hrel) : tok := match h with HSame => tag "h1" | HDiff => tag "h0" | HNa => tag "h-" end.
 Definition print_eq_obs (o : eq_obs) : list tok :=
@@ -333,7 +334,6 @@ Definition print_cres (r : cres) : list tok :=
   match r with
   | CNoCb => [tag "NOCB"]
   | CReport t => tag "P" :: print_table t
-  | CCrash => [tag "CRASH"]
   | CReject => [tag "REJECT"]
   end.
 Definition print_hres (r : hres) : list tok :=
@@ -363,12 +363,11 @@ Definition run_model (l : list tok) : list tok :=
 
 (* ------------------------------------------------------------------ branch tags (coverage accounting) *)
 Definition has_overflow_series (t : table) : bool := existsb (fun e => is_overflow_set (fst e)) t.
-Definition cres_class (r : cres) : nat :=     (* 0 nothing, 1 exact report, 2 overflow series reported, 3 crash, 4 reject *)
+Definition cres_class (r : cres) : nat :=     (* 0 nothing, 1 exact report, 2 overflow series reported, 3 reject *)
   match r with
   | CNoCb => 0%nat
   | CReport t => if has_overflow_series t then 2%nat else 1%nat
-  | CCrash => 3%nat
-  | CReject => 4%nat
+  | CReject => 3%nat
   end.
 Definition run_tag (l : list tok) : list tok :=
   match parse_case l with
@@ -379,8 +378,8 @@ Definition run_tag (l : list tok) : list tok :=
             then (if nan then "eq_equal_nan" else "eq_equal") else (if nan then "eq_differ_nan" else "eq_differ"))]
   | Some (KHm lim f ops, ws) =>
       let rs := run_hops lim f ops ws [] in
-      [tag (if existsb (fun r => match r with HRNull => true | _ => false end) rs then "hm_null"
-            else if existsb (fun r => match r with HRReject => true | _ => false end) rs then "hm_reject"
+      [tag (if existsb hop_nan ops then "hm_nan" else "hm");
+       tag (if existsb (fun r => match r with HRReject => true | _ => false end) rs then "hm_reject"
             else if existsb (fun r => match r with HRDump t => has_overflow_series t | _ => false end) rs then "hm_overflow"
             else "hm_room")]
   | Some (KSt mp c ops, ws) =>
@@ -391,7 +390,8 @@ Definition run_tag (l : list tok) : list tok :=
       let fast := (length (c_temps c) =? 1)%nat && negb (nth 0 (c_temps c) false) in
       [tag (if mp then "mp" else "st");
        tag (if fast then "fast" else if (length (c_temps c) =? 1)%nat then "cumulative" else "multi");
-       tag (match m with O => "silent" | S O => "exact" | S (S O) => "overflow" | S (S (S O)) => "crash" | _ => "reject" end)]
+       tag (match m with O => "silent" | S O => "exact" | S (S O) => "overflow" | _ => "reject" end);
+       tag (if existsb op_nan ops then "nan" else "-")]
   end.
 
 (* ------------------------------------------------------------------ observations -> spec *)
